@@ -8,40 +8,6 @@ use serde_json::{json, Value};
 use std::collections::{BTreeMap, BTreeSet};
 use std::convert::TryFrom;
 
-fn template(pos: &str) -> &'static str {
-    match pos {
-        "fact_term" => "f({p})",
-        "fact_in_array" => "f([1, {p}])",
-        "fact_in_set" => "f({ {p} })",
-        "fact_map_value" => "f({\"k\": {p}})",
-        "fact_map_key" => "f({ {p}: 1 })",
-        "rule_head_term" => "r({p}) <- f($x)",
-        "rule_body_term" => "r($x) <- f($x), g({p})",
-        "rule_body_in_array" => "r($x) <- f($x), g([{p}])",
-        "rule_expr_value" => "r($x) <- f($x), $x == {p}",
-        "rule_expr_in_array" => "r($x) <- f($x), [{p}].contains($x)",
-        "rule_closure_body" => "r($x) <- f($x), [1].any($e -> $e == {p})",
-        "rule_closure_in_array" => "r($x) <- f($x), [1].any($e -> [{p}].contains($e))",
-        "rule_scope" => "r($x) <- f($x) trusting {p}",
-        "check_body_term" => "check if g({p})",
-        "check_body_in_array" => "check if g([{p}])",
-        "check_expr_value" => "check if f($x), $x == {p}",
-        "check_expr_in_array" => "check if f($x), [{p}].contains($x)",
-        "check_scope" => "check if f($x) trusting {p}",
-        "policy_body_term" => "allow if g({p})",
-        "policy_expr_value" => "allow if f($x), $x == {p}",
-        "policy_expr_in_set" => "allow if f($x), { {p} }.contains($x)",
-        "policy_scope" => "allow if f($x) trusting {p}",
-        "check_two_alternatives" => "check if g({p}) or h($x), $x == {p}",
-        "policy_two_alternatives" => "allow if g({p}) or h($x), $x == {p}",
-        "rule_head_and_body" => "r({p}) <- f($x), g({p}), $x != {p}",
-        "fact_twice" => "f({p}, [{p}])",
-        "check_scope_two_alternatives" => "check if f($x) trusting {p} or g($x) trusting {p}",
-        "policy_scope_two_alternatives" => "allow if f($x) trusting {p} or g($x) trusting {p}",
-        o => panic!("position {o}"),
-    }
-}
-
 pub fn key_of(v: &str) -> PublicKey {
     keys::keypair("PK", if v == "key_secp256r1" { "p256" } else { "ed" }).public()
 }
@@ -130,11 +96,46 @@ fn replay_case(idx: usize, case: &Value) -> Value {
     let strict = c["strict"].as_bool().unwrap();
     let known = c["known"].as_bool().unwrap();
     let want = case["outcome"].as_str().unwrap();
-    let is_scope = pos.contains("scope");
+    // the item's source comes from the spec (Params.tla, Template)
+    let template = case["src"].as_str().unwrap();
+    let v2 = c["v2"].as_str().unwrap_or("-");
+    let bound2 = c["bound2"].as_bool().unwrap_or(true);
+    let pair = v2 != "-";
+    let is_scope = pos.contains("scope") && !pair;
     let r = util::catch(|| -> Result<String, String> {
-        let mut item = parse(pos, template(pos)).map_err(|e| format!("template does not parse: {e}"))?;
+        let mut item = parse(pos, template).map_err(|e| format!("template does not parse: {e}"))?;
+        if pair && bound2 {
+            // the second hole {q}: a term or, for the *_and_scope positions, a public key
+            let res = if v2.starts_with("key_") {
+                let k = key_of(v2);
+                match (&mut item, strict) {
+                    (Item::R(x), true) => x.set_scope("q", k),
+                    (Item::R(x), false) => x.set_scope_lenient("q", k),
+                    (Item::C(x), true) => x.set_scope("q", k),
+                    (Item::C(x), false) => x.set_scope_lenient("q", k),
+                    (Item::P(x), true) => x.set_scope("q", k),
+                    (Item::P(x), false) => x.set_scope_lenient("q", k),
+                    _ => unreachable!(),
+                }
+            } else {
+                let (t, _) = value(v2);
+                match (&mut item, strict) {
+                    (Item::F(x), true) => x.set("q", t),
+                    (Item::F(x), false) => x.set_lenient("q", t),
+                    (Item::R(x), true) => x.set("q", t),
+                    (Item::R(x), false) => x.set_lenient("q", t),
+                    (Item::C(x), true) => x.set("q", t),
+                    (Item::C(x), false) => x.set_lenient("q", t),
+                    (Item::P(x), true) => x.set("q", t),
+                    (Item::P(x), false) => x.set_lenient("q", t),
+                }
+            };
+            if let Err(e) = res {
+                return Ok(format!("set-error ({e:?})"));
+            }
+        }
         if bound {
-            let name = if known { "p" } else { "q" };
+            let name = if known { "p" } else { "zz" };
             let res = if is_scope {
                 let k = key_of(v);
                 match (&mut item, strict) {
@@ -169,7 +170,11 @@ fn replay_case(idx: usize, case: &Value) -> Value {
             Ok(bytes) => {
                 // compare with the item written with the literal
                 let lit = if is_scope { key_of(v).print() } else { value(v).1 };
-                let src = template(pos).replace("{p}", &lit);
+                let mut src = template.replace("{p}", &lit);
+                if pair {
+                    let lit2 = if v2.starts_with("key_") { key_of(v2).print() } else { value(v2).1 };
+                    src = src.replace("{q}", &lit2);
+                }
                 let direct = parse(pos, &src).map_err(|e| format!("literal form does not parse: {src}: {e}"))?;
                 let want_bytes = add(direct).map_err(|e| format!("literal form not accepted: {src}: {e}"))?;
                 if bytes == want_bytes {
@@ -193,7 +198,7 @@ fn replay_case(idx: usize, case: &Value) -> Value {
     // a value that does not fit may be refused by the setter or at add time: both are errors, not panics
     let ok = class == want || (want == "value-error" && (class == "set-error" || class == "refused"));
     if !ok && problems.is_empty() {
-        problems.push(format!("{pos} / {v} (bound={bound} strict={strict} known={known}): got {got}, the spec says {want}"));
+        problems.push(format!("{pos} / {v} / {v2} (bound={bound} bound2={bound2} strict={strict} known={known}): got {got}, the spec says {want}"));
     }
     json!({"idx": idx, "ok": problems.is_empty(), "problems": problems, "got": class})
 }
